@@ -257,6 +257,8 @@ def gen(rng, nrng, tier):
         if order > 8:
             k = k * 0.75
         r0 = float(nrng.integers(1, 9)) / 2.0
+        if i % 9 == 4:
+            r0 = [1e-15, 1e-12, 1e12, 2.0 ** -60][(i // 9) % 4]   # conversions are homogeneous in the power level
         p = {"k": k, "r0": r0}
         yield ("laws", p)
         yield (kinds[i % len(kinds)], p)
